@@ -1,10 +1,10 @@
 ------------------------------ MODULE MC_Smoke ------------------------------
 EXTENDS TopSim
-WfA == [ est |-> 0, dur |-> 2, demand |-> 2, ing |-> 1, rate |-> 1,
+WfA == [ est |-> 0, estT |-> 0, dur |-> 2, demand |-> 2, ing |-> 1, rate |-> 1,
          nodes |-> {1,2,3}, torder |-> <<1,2,3>>, comp |-> (1 :> 4 @@ 2 :> 2 @@ 3 :> 1),
          data |-> (1 :> 0 @@ 2 :> 0 @@ 3 :> 0),
          edges |-> {<<1,2>>, <<1,3>>}, vol |-> (<<1,2>> :> 2 @@ <<1,3>> :> 0) ]
-WfB == [ est |-> 1, dur |-> 3, demand |-> 2, ing |-> 1, rate |-> 1,
+WfB == [ est |-> 1, estT |-> 1, dur |-> 3, demand |-> 2, ing |-> 1, rate |-> 1,
          nodes |-> {1}, torder |-> <<1>>, comp |-> (1 :> 2), data |-> (1 :> 0),
          edges |-> {}, vol |-> EmptyFn ]
 Cfg1 == [ K |-> 1,
